@@ -120,6 +120,15 @@ func c01AllEntryPoints(mon *Mon, db *database.Database, q string, o database.Sea
 		if len(r1) > 0 && cdb.GetCacheStats()["search"].Hits > 0 {
 			mon.Tag("c01.cache-hit-served")
 		}
+		// the same request under a run of different limits on ONE cache: every answer (miss or hit,
+		// whatever was cached before under another limit) must respect the limit it was asked with
+		lims := []int{0, -1, 5, 10, 3, 1, len(db.Commands) + 1, 5, 0, 2, 10}
+		start := len(q) % len(lims)
+		for k := 0; k < len(lims); k++ {
+			o2 := o
+			o2.Limit = lims[(start+k)%len(lims)]
+			c01Check(mon, "cached-varied-limits", db, q, o2.Limit, effLimit(o2.Limit, universalDefaultLimit), cdb.SearchWithOptionsAndCache(q, o2), fin)
+		}
 	})
 	guarded(mon, "SearchWithPipelineOptions", q, func() {
 		c01Check(mon, "SearchWithPipelineOptions", db, q, o.Limit, effLimit(o.Limit, legacyDefaultLimit), db.SearchWithPipelineOptions(q, o), fin)
